@@ -22,13 +22,16 @@ type Outpoint struct{ Src, Idx int }
 
 const BaseCBSrc = -100
 
+// AutoSize as TxSpec.VSize leaves the transaction unpadded.
+const AutoSize = -1
+
 func (o Outpoint) TLA() string { return fmt.Sprintf("<<%d, %d>>", o.Src, o.Idx) }
 
 type TxSpec struct {
 	Ins   []Outpoint
 	NOut  int
 	Fee   int64
-	VSize int    // target virtual size; the factory pads to hit it exactly
+	VSize int    // target virtual size; the factory pads to hit it exactly (AutoSize: natural size)
 	Rbf   bool   // explicit BIP125 signalling
 	Cls   string // ok | badscript | insane | negfee
 	// SigOps adds this many never-executed OP_CHECKMULTISIG to output 0 (20 legacy sigops, cost 80 each).
@@ -51,9 +54,10 @@ type Universe struct {
 	MaxBlockTxs   int
 	MaxReorgTxs   int
 	Standalone    bool
-	// Scripted, when non-empty, replaces Next by this fixed sequence of
-	// ProcessTx submissions (large boundary scenarios).
-	Scripted []int
+	// Scripted, when non-empty, is the only schedule explored: {kind, tx} with
+	// kind 1 ProcessTx(tx, true), 2 CheckAccept(tx), 3 RemoveTx(tx, true)
+	// (boundary scenarios with a hundred transactions).
+	Scripted [][2]int
 }
 
 // HasWitness reports whether tx t (1-based) spends a P2WSH coin.
@@ -98,7 +102,7 @@ func (u *Universe) Validate() error {
 	var free []int
 	for _, tx := range u.Txs {
 		mf := int64(tx.VSize) * u.MinRelayFee / 1000
-		if tx.Fee < mf {
+		if tx.VSize != AutoSize && tx.Fee < mf {
 			free = append(free, tx.VSize)
 		}
 	}
@@ -174,7 +178,7 @@ func (u *Universe) Module(modName, base string, c *Concrete, extraDefs, cfgTail 
 	fmt.Fprintf(&sb, "U_SlotParent == << %s >>\n", strings.Join(sp, ", "))
 	scr := make([]string, len(u.Scripted))
 	for i, t := range u.Scripted {
-		scr[i] = fmt.Sprint(t)
+		scr[i] = fmt.Sprintf("<<%d, %d>>", t[0], t[1])
 	}
 	fmt.Fprintf(&sb, "U_Script == << %s >>\n", strings.Join(scr, ", "))
 	sb.WriteString(extraDefs)
@@ -186,9 +190,7 @@ func (u *Universe) Module(modName, base string, c *Concrete, extraDefs, cfgTail 
 	cf.WriteString(" TxRbf <- U_TxRbf\n TxCls <- U_TxCls\n TxWit <- U_TxWit\n SlotParent <- U_SlotParent\n")
 	fmt.Fprintf(&cf, " NFund = %d\n Maturity = %d\n RejectRepl = %s\n MaxOrphans = %d\n MaxOrphanSize = %d\n MinRelayFee = %d\n FreeLimit = %d\n MaxEvict = %d\n MaxBlockTxs = %d\n MaxReorgTxs = %d\n Standalone = %s\n",
 		u.NFund, u.Maturity, tlaBool(u.RejectRepl), u.MaxOrphans, u.MaxOrphanSize, u.MinRelayFee, u.FreeLimit, u.MaxEvict, u.MaxBlockTxs, u.MaxReorgTxs, tlaBool(u.Standalone))
-	if len(u.Scripted) > 0 {
-		cf.WriteString(" Script <- U_Script\n")
-	}
+	cf.WriteString(" Script <- U_Script\n")
 	cf.WriteString(cfgTail)
 	return sb.String(), cf.String()
 }
@@ -223,7 +225,7 @@ func defaults(u Universe) *Universe {
 			u.Txs[i].NOut = 1
 		}
 		if u.Txs[i].VSize == 0 {
-			u.Txs[i].VSize = 100
+			u.Txs[i].VSize = 100 // AutoSize (-1) keeps the natural size
 		}
 	}
 	return &u
@@ -292,6 +294,26 @@ func BuiltinUniverses() []*Universe {
 				{Ins: ins(out(1, 1)), Fee: 1000},
 			}}),
 	}
+}
+
+// EvictionBoundary is the scripted scenario around MaxReplacementEvictions:
+// t1 signals and has a hundred outputs, t2..t101 spend one each, t102
+// replaces t1.  With 99 children pooled the replacement evicts exactly 100
+// transactions (allowed), with 100 children it would evict 101 (refused).
+func EvictionBoundary() *Universe {
+	u := Universe{Name: "evict100", NFund: 1, SlotParent: []int{0}, MaxOrphans: 0, Standalone: true}
+	u.Txs = append(u.Txs, TxSpec{Ins: ins(fund(0)), NOut: 100, Fee: 30000, VSize: AutoSize, Rbf: true})
+	for i := 0; i < 100; i++ {
+		u.Txs = append(u.Txs, TxSpec{Ins: ins(out(1, i)), Fee: 1000, VSize: AutoSize})
+	}
+	u.Txs = append(u.Txs, TxSpec{Ins: ins(fund(0)), Fee: 200000})
+	const R = 102
+	u.Scripted = append(u.Scripted, [2]int{1, 1})
+	for t := 2; t <= 100; t++ {
+		u.Scripted = append(u.Scripted, [2]int{1, t})
+	}
+	u.Scripted = append(u.Scripted, [2]int{2, R}, [2]int{1, 101}, [2]int{2, R}, [2]int{1, R}, [2]int{3, 101}, [2]int{1, R}, [2]int{2, 1}, [2]int{1, 2})
+	return defaults(u)
 }
 
 // RandomUniverse draws a small universe from the seed.
